@@ -298,4 +298,90 @@ def Res.filterIgnored (scanIgnored : Bool) : Res → Res
 def lexAll (scanIgnored : Bool) (src : List Nat) : Res :=
   (lexFrom src (src.length + 1) 0).filterIgnored scanIgnored
 
+/-! ## The number grammar, declaratively (§2.9.1, §2.9.2)
+
+  The productions as predicates on words, with no algorithmic content. `Props.number_longest_match` shows
+  that `number?` / `numberLoose?` return the longest prefix that is a word of IntValue or FloatValue,
+  classified by the production it belongs to. -/
+
+def Digits (w : List Nat) : Prop := ∀ c ∈ w, isDigit c = true
+
+/-- 0 | NonZeroDigit Digit* -/
+inductive UnsignedIntegerPart : List Nat → Prop
+  | zero : UnsignedIntegerPart ['0'.toNat]
+  | nonZero (d : Nat) (ds : List Nat) : isNonZeroDigit d = true → Digits ds → UnsignedIntegerPart (d :: ds)
+
+/-- IntegerPart :: NegativeSign? 0 | NegativeSign? NonZeroDigit Digit* -/
+def IntegerPart (w : List Nat) : Prop :=
+  UnsignedIntegerPart w ∨ ∃ u, UnsignedIntegerPart u ∧ w = '-'.toNat :: u
+
+/-- FractionalPart :: . Digit+ -/
+def FractionalPart (w : List Nat) : Prop :=
+  ∃ d ds, isDigit d = true ∧ Digits ds ∧ w = '.'.toNat :: d :: ds
+
+/-- ExponentPart :: ExponentIndicator Sign? Digit+ -/
+def ExponentPart (w : List Nat) : Prop :=
+  ∃ e sign d ds, (e = 'e'.toNat ∨ e = 'E'.toNat) ∧ (sign = [] ∨ sign = ['+'.toNat] ∨ sign = ['-'.toNat]) ∧
+    isDigit d = true ∧ Digits ds ∧ w = e :: (sign ++ d :: ds)
+
+/-- IntValue :: IntegerPart -/
+def IntValue (w : List Nat) : Prop := IntegerPart w
+
+/-- FloatValue :: IntegerPart FractionalPart | IntegerPart ExponentPart | IntegerPart FractionalPart ExponentPart -/
+def FloatValue (w : List Nat) : Prop :=
+  ∃ ip fp ep, IntegerPart ip ∧ (fp = [] ∨ FractionalPart fp) ∧ (ep = [] ∨ ExponentPart ep) ∧
+    (fp ≠ [] ∨ ep ≠ []) ∧ w = ip ++ fp ++ ep
+
+/-! ## The other reading of D1–D3 (oracle only)
+
+  `lexAllLoose` is the same lexer under the *pure longest-match* reading of the three places listed in
+  the header: U+FEFF is an Ignored token anywhere (D2), a number is never rejected for what follows it
+  (`1e` is IntValue `1`, Name `e` — D1), and `"""` that does not open a complete block string is the
+  empty string `""` followed by `"` (D3). No theorem mentions it. The harness's oracle accepts a
+  scanner output that agrees with either reading, so that a scanner that followed the letter of the
+  grammar there would not be reported as violating the property (it would still break the tie with the
+  model, which implements the strict reading, as the Go scanner does). -/
+
+def numberLoose? (s : List Nat) : Option (Bool × Nat) :=
+  match integerPart? s with
+  | none => none
+  | some ip =>
+    let (hasFrac, n1) := match fractionalPart? (s.drop ip) with
+      | some fp => (true, ip + fp)
+      | none => (false, ip)
+    match exponentPart? (s.drop n1) with
+    | some ep => some (true, n1 + ep)
+    | none => some (hasFrac, n1)
+
+def tokenLoose? (s : List Nat) : Option (Kind × Nat × List Nat) :=
+  match s with
+  | [] => none
+  | c :: rest =>
+    if c = 0xFEFF then some (.unicodeBOM, 1, [])
+    else if c = '"'.toNat then
+      let quoted := (stringBody? rest).map fun (n, v) => (Kind.stringValue, 1 + n, v)
+      if rest.take 2 = ['"'.toNat, '"'.toNat] then
+        match blockBody? (rest.drop 2) with
+        | some (n, raw) => some (.stringValue, 3 + n, blockStringValue raw)
+        | none => quoted
+      else quoted
+    else if c = '-'.toNat ∨ isDigit c then
+      (numberLoose? s).map fun (isFloat, n) => (if isFloat then .floatValue else .intValue, n, [])
+    else token? false s
+
+def lexFromLoose (src : List Nat) : Nat → Nat → Res
+  | 0, _ => .error []
+  | fuel + 1, off =>
+    match src.drop off with
+    | [] => .ok []
+    | rest =>
+      match tokenLoose? rest with
+      | none => .error []
+      | some (k, n, v) =>
+        let (line, col) := position src off
+        (lexFromLoose src fuel (off + n)).cons { kind := k, off := off, len := n, line := line, col := col, value := v }
+
+def lexAllLoose (scanIgnored : Bool) (src : List Nat) : Res :=
+  (lexFromLoose src (src.length + 1) 0).filterIgnored scanIgnored
+
 end ApiFu.C07.Spec
